@@ -41,8 +41,11 @@ pub enum Sep {
     /// comments that look like something else: four slashes (not a doc comment), empty and star-heavy block comments,
     /// an empty line comment
     OddComments,
+    /// a preprocessor line that removes nothing, between ANY two tokens: every construct - an attribute's argument list,
+    /// a type expression, a member list - continues in the next source block
+    DirectiveLines,
 }
-pub const ALL_SEPS: [Sep; 11] = [Sep::Space, Sep::Newline, Sep::Tab, Sep::BlockComment, Sep::LineComment, Sep::CrLf, Sep::MultiByteComment, Sep::Tight, Sep::BlankLinesIndent, Sep::MultiByteLines, Sep::OddComments];
+pub const ALL_SEPS: [Sep; 12] = [Sep::Space, Sep::Newline, Sep::Tab, Sep::BlockComment, Sep::LineComment, Sep::CrLf, Sep::MultiByteComment, Sep::Tight, Sep::BlankLinesIndent, Sep::MultiByteLines, Sep::OddComments, Sep::DirectiveLines];
 
 impl Sep {
     pub fn text(&self) -> &'static str {
@@ -57,7 +60,9 @@ impl Sep {
             Sep::Tight => "",
             Sep::BlankLinesIndent => "\n\n    ",
             Sep::MultiByteLines => "\t/*é✓😀*/ // données ☃\n\t",
-            Sep::OddComments => " ////not a doc comment\n/**/ /***/ /* // */ //\n",
+            // (also: block comments whose text begins with a slash or a star, and the "toggle" comment that ends in /*/)
+            Sep::OddComments => " ////not a doc comment\n/**/ /***/ /* // */ /*/ slash first */ /*// two */ /*/*/ /*/ struct Off {} /*/ //\n",
+            Sep::DirectiveLines => "\n#define ZZ9 // continues below\n\t",
         }
     }
     pub fn has_newline(&self) -> bool {
@@ -385,9 +390,14 @@ impl<'a> P<'a> {
         if let Some(t) = t {
             self.w("tag");
             self.p("(");
-            self.int(t);
+            let (lf, ll) = self.int(t);
             self.p(")");
             n.prop("tag", &((t.value as u32).to_string()));
+            // the literal is a symbol with a location of its own: exactly its tokens
+            let mut lit = Node::new("tagvalue");
+            lit.prop("value", &((t.value as u32).to_string()));
+            lit.pos = Some(Pos { first: lf, last: ll, name: None, rule: PosRule::Exact });
+            n.children.push(lit);
         } else {
             n.prop("tag", "none");
         }
@@ -605,12 +615,18 @@ impl<'a> P<'a> {
                     }
                     self.scope.pop();
                     x.prop("has_field_list", if en.fields.is_some() { "true" } else { "false" });
+                    let mut literal: Option<Node> = None;
                     let value = match &en.value {
                         Some(v) => {
                             self.p("=");
-                            let (_, l) = self.int(v);
+                            let (lf, l) = self.int(v);
                             elast = l;
                             x.prop("explicit", "true");
+                            // the literal (sign included) is a symbol with a location of its own: exactly its tokens
+                            let mut lit = Node::new("valueliteral");
+                            lit.prop("value", &v.value.to_string());
+                            lit.pos = Some(Pos { first: lf, last: l, name: None, rule: PosRule::Exact });
+                            literal = Some(lit);
                             v.value
                         }
                         None => {
@@ -624,6 +640,7 @@ impl<'a> P<'a> {
                     x.children.extend(edoc);
                     x.children.push(ident_node(&en.c.name, ename));
                     x.children.extend(fnodes);
+                    x.children.extend(literal);
                     x.pos = Some(Pos { first: efirst, last: elast, name: Some(ename), rule: PosRule::Decl });
                     ens.push(x);
                     self.member_comma(k + 1 == e.enumerators.len());
